@@ -104,3 +104,46 @@ def gen_select(info):
 
 
 GENERATORS.append(gen_select)
+
+
+def gen_coeff_keys(info):
+    """Key structure of the shipped coefficient file, reader spacecraft names, version hashes."""
+    import hashlib
+    from importlib.resources import files
+    from pygac.calibration.noaa import Calibrator
+    from pygac.klm_reader import KLMReader
+    from pygac.pod_reader import PODReader
+    path = files("pygac") / "data/calibration.json"
+    with open(path, "rb") as fh:
+        content = fh.read()
+    table = json.loads(content)
+    md5 = hashlib.md5(content).hexdigest()
+    names = sorted(set(KLMReader.spacecraft_names.values()) | set(PODReader.spacecraft_names.values()))
+    rows = []
+    for sat in sorted(table):
+        keys = []
+        for top, v in table[sat].items():
+            if isinstance(v, dict):
+                keys += ["%s.%s" % (top, k) for k in v]
+            else:
+                keys.append(top)
+        rows.append((sat, sorted(keys)))
+    # keys the calibrator reads unconditionally (coeffs[channel][key], coeffs["date_of_launch"])
+    required = (["channel_%s.%s" % (c, k) for c in ("1", "2", "3a") for k in ("dark_count", "gain_switch", "s0", "s1", "s2")] +
+                ["channel_%s.%s" % (c, k) for c in ("3b", "4", "5")
+                 for k in ("centroid_wavenumber", "space_radiance", "to_eff_blackbody_intercept", "to_eff_blackbody_slope", "b0", "b1", "b2")] +
+                ["date_of_launch"])
+    hashes = [(h, v["name"]) for h, v in Calibrator.version_hashs.items()]
+    info["shipped_md5"] = md5
+    out = [HEADER, "namespace PygacModel.Generated\n",
+           "def readerSpacecraftNames : List String := %s\n" % llist([lstr(n) for n in names], per_line=9),
+           "def requiredCoeffKeys : List String := %s\n" % llist([lstr(k) for k in required], per_line=3),
+           "def coeffKeyTable : List (String × List String) := %s\n" % llist(
+               ["(%s, [%s])" % (lstr(s), ", ".join(lstr(k) for k in ks)) for s, ks in rows]),
+           "def shippedMd5 : String := %s\n" % lstr(md5),
+           "def versionHashes : List (String × String) := %s\n" % llist(["(%s, %s)" % (lstr(h), lstr(n)) for h, n in hashes]),
+           "end PygacModel.Generated\n"]
+    return "CoeffKeys.lean", "".join(out)
+
+
+GENERATORS.append(gen_coeff_keys)
